@@ -85,9 +85,14 @@ class Box(AbstractSpace[Float[Array, " ..."], None]):
 
         sample = jnp.empty(self.shape, dtype=self.low.dtype)
 
+        fraction = jr.uniform(bounded_key, self.shape)
         sample = jnp.where(
             bounded,
-            jr.uniform(bounded_key, self.shape, minval=self.low, maxval=self.high),
+            jnp.where(
+                jnp.isfinite(self.high - self.low),
+                jr.uniform(bounded_key, self.shape, minval=self.low, maxval=self.high),
+                self.low * (1.0 - fraction) + self.high * fraction,
+            ),
             sample,
         )
 
